@@ -71,3 +71,16 @@ Fixpoint mk_rounds (n klen : nat) (mk : list (list N)) (tape : list N) (rounds :
 Definition mk_history (n : nat) (key : bytes) (tape : list N) (rounds : nat) : bytes * list (bytes * list (list bool)) :=
   let '(mk, t') := mk_init n key tape in
   (mk_extract (length key) mk, mk_rounds n (length key) mk t' rounds).
+
+(* masked states (five words) and any other list of masked words: mask each word from the tape, then
+   re-randomise `rounds` times; observed: the values of the words after each step and the change flags *)
+Fixpoint mws_rounds (n : nat) (mk : list (list N)) (tape : list N) (rounds : nat) : list (list N * list (list bool)) :=
+  match rounds with
+  | O => []
+  | S r => let '(mk', t') := mk_randomize n mk tape in
+           (map mw_value mk', map (fun p => changed (fst p) (snd p)) (combine mk mk')) :: mws_rounds n mk' t' r
+  end.
+Definition mws_init (n : nat) (ws : list N) (tape : list N) : list (list N) * list N :=
+  let '(ps, t') := deal (n - 1) ws tape in (map (fun p => mw_mask (fst p) (snd p)) ps, t').
+Definition mws_history (n : nat) (ws : list N) (tape : list N) (rounds : nat) : list N * list (list N * list (list bool)) :=
+  let '(mk, t') := mws_init n ws tape in (map mw_value mk, mws_rounds n mk t' rounds).
